@@ -7,6 +7,8 @@ ALL = [json.loads(l)['id'] for l in open('/verif/properties.jsonl')]
 TECH = "bounded symbolic execution of /repo's go/ssa (gosym) + SMT (z3 5.1 incremental; z3 4.8.12/cvc5 fallback), counterexamples replayed natively"
 
 CLAIMED = {
+ "C01": ("§4 C01", "GenBank.String (the whole writer incl. INSDC table, qualifier kinds, wrap, ORIGIN/CONTIG) is executed on bounded template records with symbolic residues, header letters, valid symbolic calendar date and symbolic feature coordinates/partial flags/strand; the written text is scanned by the real reader: accepted, residues/feature table/header fields equal, and writing the re-read record reproduces the text byte for byte.",
+         "template shapes bounded as stated in the evidence; time.Format modelled field by field for valid dates; corpus records and edit pipelines longer than the C15 commands are outside"),
  "C02": ("§4 C02", "Shift/Expand (n>=0) of every location shape in the bound is proved, for all coordinates/i/n/L <= 2^40 at once, to denote exactly the host residues under the insert map (Embed: plus the guest inside strictly spanning parts), in the same order and strand, with markers on the same ends; gts.Insert/Embed are additionally executed on symbolic-byte sequences.",
          "shapes bounded (<=3 parts, depth 2; API level: short sequences); coordinates capped at 2^40; SMT Int encoding with discharged no-overflow obligations"),
  "C03": ("§4 C03", "Expand(i,-n) (the location half of Delete/Erase/Slice) is proved to keep exactly the surviving residues in order and strand, collapse emptied locations to a site at the cut, stay in range and set the partial markers of cut ends, for all coordinates; gts.Delete/Slice are executed on symbolic sequences.",
